@@ -1337,6 +1337,8 @@ class Builder:
                         and pending_commands[-3].instruction == GenericInstr.SET  # type: ignore
                         and pending_commands[-2].instruction == GenericInstr.QALLOC  # type: ignore
                         and pending_commands[-1].instruction == GenericInstr.INIT  # type: ignore
+                        # ... and that it is indeed the qubit that has to move
+                        and pending_commands[-3].operands[1] == virtual_address  # type: ignore
                     ):
                         # Update the SET command with the new address.
                         pending_commands[-3].operands[1] = new_virtual_address  # type: ignore
